@@ -106,7 +106,7 @@ CHECKS['C06'] = {
     'technique': TECH + '; ghost commit state on the store shell; bounded stand-in for redb reopening',
 }
 NOT_APPLICABLE = {
-    'C04': 'statement over interleavings/histories of 2..5 replicas with lossy gossip and restarts; no function or data structure whose contract expresses it',
+    'C04': 'statement over interleavings/histories of 2..5 replicas with lossy gossip, aborted sessions and restarts, with a liveness conclusion ("once sessions are run to completion ..."): no function or data structure whose contract expresses it, Kani has no threads, Verus would need a protocol-level inductive invariant over process_message, which is outside both verifiers. What contracts can contribute is claimed elsewhere and not repeated here: the per-replica merge is an order- and repetition-independent join and only offered, valid entries are ever stored (C02 L-join, C03), a completed session is decided only within a bound (C01 c01_sync)',
 }
 for _p in ['C02','C03','C05','C07','C08','C09','C10','C12','C13','C15','C16','C17','C18']:
     NOT_APPLICABLE.setdefault(_p, 'not yet claimed: units under construction (see DESIGN.md section 5)')
